@@ -41,12 +41,28 @@ def decompose_to_symbols(vlist, base, res=[]) -> List[Symbol]:
         return [new_symb]
 
 
+def nest(ttype, bits):
+    """Rebuild the (nested) value of type ttype from the flat list of its bits"""
+    if get_args(ttype):
+        vals = []
+        for t in get_args(ttype):
+            v, bits = nest(t, bits)
+            vals.append(v)
+        return vals, bits
+    if ttype is bool:
+        return bits[0], bits[1:]
+    return bits[: ttype.BIT_SIZE], bits[ttype.BIT_SIZE :]
+
+
 def translate_expression(expr, env: Env) -> TExp:  # noqa: C901
     """Translate an expression"""
 
     # Name reference
     if isinstance(expr, ast.Name):
         binding = env[expr.id]
+        if get_args(binding.ttype):
+            # a tuple value is the list of its elements' values, as for a display
+            return (binding.ttype, nest(binding.ttype, binding.to_exp())[0])
         return (binding.ttype, binding.to_exp())
 
     # Subscript: a[0][1]
@@ -222,16 +238,12 @@ def translate_expression(expr, env: Env) -> TExp:  # noqa: C901
                 raise exceptions.OperationNotSupportedException(bool, expr.ops[0])
             op = Qbool.eq
 
+            def flat(v):
+                return [b for x in v for b in flat(x)] if isinstance(v, list) else [v]
+
             c = True
-            idx = 0
-            for left, right in zip(arg_l, arg_r):
-                if left == bool:
-                    c = And(c, op((bool, tleft[1][idx]), (bool, tcomp[1][idx]))[1])
-                    idx += 1
-                else:
-                    for si in range(left.BIT_SIZE):
-                        c = And(c, op((bool, tleft[1][idx]), (bool, tcomp[1][idx]))[1])
-                        idx += 1
+            for bit_l, bit_r in zip(flat(tleft[1]), flat(tcomp[1])):
+                c = And(c, op((bool, bit_l), (bool, bit_r))[1])
 
             if isinstance(expr.ops[0], ast.NotEq):
                 c = Not(c)
@@ -413,18 +425,6 @@ def translate_expression(expr, env: Env) -> TExp:  # noqa: C901
 
             if len(_ret) == 1:
                 return (bool, _ret[0])
-
-            def nest(ttype, bits):
-                # rebuild the (nested) value of type ttype from the flat list of its bits
-                if get_args(ttype):
-                    vals = []
-                    for t in get_args(ttype):
-                        v, bits = nest(t, bits)
-                        vals.append(v)
-                    return vals, bits
-                if ttype is bool:
-                    return bits[0], bits[1:]
-                return bits[: ttype.BIT_SIZE], bits[ttype.BIT_SIZE :]
 
             if get_args(def_f[2].ttype):
                 _ret = nest(def_f[2].ttype, _ret)[0]
